@@ -18,6 +18,7 @@ import (
 	"encoding/json"
 	"errors"
 	"net/http"
+	"strings"
 
 	"github.com/versity/versitygw/s3err"
 )
@@ -37,6 +38,7 @@ const (
 	policyErrInvalidFirstChar     = policyErr("Policies must be valid JSON and the first byte must be '{'")
 	policyErrEmptyStatement       = policyErr("Could not parse the policy: Statement is empty!")
 	policyErrMissingStatmentField = policyErr("Missing required field Statement")
+	policyErrUnsupportedElement   = policyErr("Policy has an unsupported element (Condition, NotPrincipal, NotAction, NotResource)")
 )
 
 type BucketPolicy struct {
@@ -94,6 +96,25 @@ type BucketPolicyItem struct {
 	Principals Principals             `json:"Principal"`
 	Actions    Actions                `json:"Action"`
 	Resources  Resources              `json:"Resource"`
+}
+
+// UnmarshalJSON refuses the statement elements that restrict a statement
+// and that the gateway does not evaluate: ignoring them would grant (or
+// deny) more than the document says
+func (bpi *BucketPolicyItem) UnmarshalJSON(data []byte) error {
+	var elems map[string]json.RawMessage
+	if err := json.Unmarshal(data, &elems); err != nil {
+		return err
+	}
+	for name := range elems {
+		switch strings.ToLower(name) {
+		case "condition", "notprincipal", "notaction", "notresource":
+			return policyErrUnsupportedElement
+		}
+	}
+
+	type item BucketPolicyItem
+	return json.Unmarshal(data, (*item)(bpi))
 }
 
 func (bpi *BucketPolicyItem) Validate(bucket string, iam IAMService) error {
